@@ -221,6 +221,14 @@ func benign(paths []string) {
 						op = "-= 1"
 					}
 					add("benign: ++ as += 1", x.Pos(), x.End(), text(x.X)+" "+op)
+				case *ast.ExprStmt:
+					// x.F(args) as a statement -> func() { x.F(args) }(): the cheapest stand-in for "moved into a helper"
+					if call, isCall := x.X.(*ast.CallExpr); isCall {
+						t := text(call.Fun)
+						if _, isLit := call.Fun.(*ast.FuncLit); !isLit && !strings.Contains(t, "ogger") && !strings.Contains(t, "Debug") && !strings.Contains(t, "Info") && !strings.Contains(t, "Warn") && !strings.Contains(t, "Error") && !strings.Contains(t, "WriteString") && t != "panic" && t != "recover" && !strings.HasSuffix(t, "Lock") && !strings.HasSuffix(t, "Unlock") {
+							add("benign: call statement wrapped in a called literal", x.Pos(), x.End(), "func() { "+text(x)+" }()")
+						}
+					}
 				case *ast.DeferStmt:
 					// defer x.M() -> defer func() { x.M() }(): only for calls whose arguments are plain names or selectors
 					simple := true
